@@ -10,6 +10,7 @@ import sys
 import tempfile
 import z3
 from .replay import definite
+from .state import CannotBind
 from .vals import *
 from .ops import truth
 from .state import State, Unsupported, PathEnd
@@ -211,6 +212,8 @@ class CChecker:
             v = truth(ex.eval_spec(text, st, env=env, old_state=old))
         except PathEnd:
             return False
+        except Exception as e:      # noqa: name the clause that cannot be evaluated (checker error, never a verdict)
+            raise CannotBind('clause %r cannot be evaluated concretely: %r' % (text, e))
         if isinstance(v, bool):
             return v
         v = z3.simplify(v)
@@ -263,7 +266,9 @@ class CChecker:
         if isinstance(res, dict) and 'f' in res:
             res = float.fromhex(res['f'])
         elif isinstance(res, dict) and 'struct' in res:
-            res = dict(res['struct'])
+            # a struct returned by value: a record in the post-state, so that `result.field` evaluates
+            rp = c_from_json(res, (self.ret or 'struct').strip(), post, 'result', origin='local')
+            res = Ref(rp.oid)
         bad = []
         for text in self.c.ensures:
             try:
